@@ -107,13 +107,15 @@ Definition wif_encode (secret : Z) (mainnet compressed : bool) : result (list Z)
   else Err.
 
 (* PrivateKey.parse: (secret, is_mainnet, compressed); "testnet" stands for every
-   non-mainnet network *)
+   non-mainnet network.  Since fix 6e4d66f the payload must have 34 bytes (compressed, last
+   byte 1) or 33 bytes (uncompressed). *)
 Definition wif_parse (wif : list Z) : result (Z * bool * bool) :=
   raw <- raw_decode_base58 wif ;;
   '(compressed, raw1) <-
       (if (length raw =? 34)%nat then
          (if nth 33 raw 0 =? 1 then Ok (true, firstn 33 raw) else Err)
-       else Ok (false, raw)) ;;
+       else if (length raw =? 33)%nat then Ok (false, raw)
+       else Err) ;;                                  (* fix 6e4d66f: "Invalid WIF" *)
   let secret := from_be (skipn 1 raw1) in
   match raw1 with
   | [] => Err                                      (* raw[0] IndexError *)
